@@ -615,7 +615,9 @@ def check_C04(ctx):
         # nested variant: half of them in a sub-suite
         g = []
         for k, order in enumerate(orders):
-            if k % 3 == 2 and len(order) > 1:
+            if k % 5 == 4:      # a sub-suite that ends up without tests (its only test is not in this subset), registered first
+                root = S("top", items=[S("emptied", items=[]), S("inner", items=[t.copy() for t in order[:1]])] + [t.copy() for t in order[1:]])
+            elif k % 3 == 2 and len(order) > 1:
                 root = S("top", items=[S("inner", items=[t.copy() for t in order[: len(order) // 2]])] + [t.copy() for t in order[len(order) // 2:]])
             else:
                 root = S("top", items=[t.copy() for t in order])
@@ -670,6 +672,20 @@ def check_C04(ctx):
                 (fa, (na, ta)), (fb, (nb, tb)) = list(fps.items())[:2]
                 ctx.violation(f"[C04] what a test inherits from the runner depends on what ran before it: test {na} starts with `{fa}`, test {nb} with `{fb}` (signal dispositions for signals 1-31: D default, I ignored, H handled)",
                               "# (forking mode, text reporter; harness/scenario_run writes <outdir>/fingerprints)\n# run A:\n" + ta + "\n# run B:\n" + tb, found_input=True, facts={"mode": "fork", "inherited_state": True})
+    # ... also under a reporter that keeps files of its own per test and per suite (libxml2): tests of the same suite inherit the same
+    lx = [scens[g[0]] for g in groups]
+    lobs = bench.run_many([(s.text(), "libxml") for s in lx])
+    for s, o in zip(lx, lobs):
+        by_suite = {}
+        for l in o.fingerprints:
+            path, _, fp = l.partition(" ")
+            by_suite.setdefault(path.rsplit("/", 1)[0], {}).setdefault(fp, path.split("/")[-1])
+        for suite, fps in by_suite.items():
+            if len(fps) > 1 and shown < 8:
+                shown += 1
+                (fa, na), (fb, nb) = list(fps.items())[:2]
+                ctx.violation(f"[C04] libxml2 reporter: what a test inherits from the runner depends on what ran before it: in suite {suite} test {na} starts with `{fa}`, test {nb} with `{fb}`",
+                              "# (forking mode, libxml2 reporter; harness/scenario_run writes <outdir>/fingerprints)\n" + s.text(), found_input=True, facts={"mode": "fork", "inherited_state": True, "rep": "libxml"})
     # the same orders as another reporter shows them: what CUTE says about a test (its status lines) does not depend on the order either
     cobs = bench.run_many([(s.text(), "cute") for s in scens])
     for g in groups:
